@@ -38,7 +38,9 @@ func cmac(i int) []byte { return []byte{2, 0, 0, 0, 2, byte(i)} }
 func cip(i int) []byte  { return []byte{192, 168, 0, byte(30 + i)} }
 func clla(i int) []byte { return []byte{0xfe, 0x80, 0, 0, 0, 0, 0, 0, 0, 0, 0, 0, 0, 0, 2, byte(i)} }
 
-// history builds a deterministic packet history from the seed.
+// History builds a deterministic packet history from the seed.
+func History(seed int64, n int) [][]byte { return history(seed, n) }
+
 func history(seed int64, n int) [][]byte {
 	r := rand.New(rand.NewSource(seed))
 	var h [][]byte
